@@ -477,3 +477,38 @@ pub fn simplify_u64s(mut v: Vec<u64>, mut fails: impl FnMut(&[u64]) -> bool) -> 
     }
     v
 }
+
+/// Redirects the process's stdout to /dev/null until dropped (the repo's artifact
+/// builders print progress lines). Create it on the main thread around a whole run.
+pub struct StdoutSilencer {
+    saved: i32,
+}
+
+impl StdoutSilencer {
+    pub fn new() -> Self {
+        use std::io::Write;
+        let _ = std::io::stdout().flush();
+        unsafe {
+            let saved = libc::dup(1);
+            let null = libc::open(b"/dev/null\0".as_ptr() as *const libc::c_char, libc::O_WRONLY);
+            if null >= 0 {
+                libc::dup2(null, 1);
+                libc::close(null);
+            }
+            StdoutSilencer { saved }
+        }
+    }
+}
+
+impl Drop for StdoutSilencer {
+    fn drop(&mut self) {
+        use std::io::Write;
+        let _ = std::io::stdout().flush();
+        unsafe {
+            if self.saved >= 0 {
+                libc::dup2(self.saved, 1);
+                libc::close(self.saved);
+            }
+        }
+    }
+}
